@@ -55,3 +55,79 @@ def dec_states(ct,key):
         if r<nr: s=isub(s)
         st[(r,3)]=list(s)
     return st,s
+
+
+# ---- speed-up: multiplication tables *derived* from gmul above (nothing copied from the subject) ----
+_MUL = {m: [gmul(m, x) for x in range(256)] for m in (1, 2, 3, 9, 11, 13, 14)}
+
+
+def mixc(col, m):  # noqa: F811  (table-driven version of the definition above; checked against it in self_test)
+    t0, t1, t2, t3 = _MUL[m[0]], _MUL[m[1]], _MUL[m[2]], _MUL[m[3]]
+    return [t0[col[(0 + r) % 4]] ^ t1[col[(1 + r) % 4]] ^ t2[col[(2 + r) % 4]] ^ t3[col[(3 + r) % 4]] for r in range(4)]
+
+
+def _mixc_slow(col, m):
+    return [gmul(m[0], col[(0 + r) % 4]) ^ gmul(m[1], col[(1 + r) % 4]) ^ gmul(m[2], col[(2 + r) % 4]) ^ gmul(m[3], col[(3 + r) % 4]) for r in range(4)]
+
+
+def encrypt(pt, key):
+    return enc_states(pt, key)[1]
+
+
+def decrypt(ct, key):
+    return dec_states(ct, key)[1]
+
+
+def inv_expand_128(round_key, r):
+    """Master key of AES-128 from round key r (inverse of the schedule, written independently of expand)."""
+    w = [list(round_key[4 * i:4 * i + 4]) for i in range(4)]
+    rc = [1]
+    for _ in range(10):
+        rc.append(xt(rc[-1]))
+    for rr in range(r, 0, -1):
+        w3 = [a ^ b for a, b in zip(w[3], w[2])]
+        w2 = [a ^ b for a, b in zip(w[2], w[1])]
+        w1 = [a ^ b for a, b in zip(w[1], w[0])]
+        t = w3[1:] + w3[:1]
+        t = [SB[x] for x in t]
+        t[0] ^= rc[rr - 1]
+        w0 = [a ^ b for a, b in zip(w[0], t)]
+        w = [w0, w1, w2, w3]
+    return sum(w, [])
+
+
+def self_test():
+    """FIPS-197 appendix C vectors, appendix A.1 schedule end, table/definition agreement, optional pycryptodome."""
+    h = bytes.fromhex
+    pt = list(h('00112233445566778899aabbccddeeff'))
+    vec = [('000102030405060708090a0b0c0d0e0f', '69c4e0d86a7b0430d8cdb78070b4c55a'),
+           ('000102030405060708090a0b0c0d0e0f1011121314151617', 'dda97ca4864cdfe06eaf70a0ec0d7191'),
+           ('000102030405060708090a0b0c0d0e0f101112131415161718191a1b1c1d1e1f', '8ea2b7ca516745bfeafc49904b496089')]
+    for k, c in vec:
+        if encrypt(pt, list(h(k))) != list(h(c)) or decrypt(list(h(c)), list(h(k))) != pt:
+            return f'FIPS-197 appendix C vector failed for key {k}'
+    if SB[0x53] != 0xed or SB[0] != 0x63 or sorted(SB) != list(range(256)):
+        return 'S-box derivation failed'
+    if expand(list(h('2b7e151628aed2a6abf7158809cf4f3c')))[10] != list(h('d014f9a8c9ee2589e13f0cc8b6630ca6')):
+        return 'FIPS-197 appendix A.1 key expansion failed'
+    for col in ([0xdb, 0x13, 0x53, 0x45], [1, 2, 3, 4], [0xff, 0, 0x80, 0x1b]):
+        for m in ([2, 3, 1, 1], [14, 11, 13, 9]):
+            if mixc(col, m) != _mixc_slow(col, m):
+                return 'table-driven mix column differs from its definition'
+    if mixc([0xdb, 0x13, 0x53, 0x45], [2, 3, 1, 1]) != [0x8e, 0x4d, 0xa1, 0xbc]:
+        return 'mix column known answer failed'
+    k128 = list(h('2b7e151628aed2a6abf7158809cf4f3c'))
+    for r in range(11):
+        if inv_expand_128(expand(k128)[r], r) != k128:
+            return 'inverse key schedule self-check failed'
+    try:
+        from Crypto.Cipher import AES
+        import os
+        for n in (16, 24, 32):
+            for _ in range(4):
+                k, p = os.urandom(n), os.urandom(16)
+                if bytes(encrypt(list(p), list(k))) != AES.new(k, AES.MODE_ECB).encrypt(p):
+                    return 'reference disagrees with pycryptodome'
+    except ImportError:
+        pass
+    return None
